@@ -84,3 +84,89 @@ func (c *FnCtx) callSiteAsserts(st *State, key string, sig *types.Signature, rec
 		c.matchedCallSites[i] = true
 	}
 }
+
+// findNamedStruct resolves a bare struct type name: first in the preferred package, then among
+// `transparent` dependency structs, then uniquely among the loaded module packages.
+func (e *Engine) findNamedStruct(name string, prefer *types.Package) *types.Named {
+	look := func(p *types.Package) *types.Named {
+		if p == nil {
+			return nil
+		}
+		if obj := p.Scope().Lookup(name); obj != nil {
+			if tn, ok := obj.(*types.TypeName); ok {
+				if n, ok := tn.Type().(*types.Named); ok {
+					if _, ok := n.Underlying().(*types.Struct); ok {
+						return n
+					}
+				}
+			}
+		}
+		return nil
+	}
+	if n := look(prefer); n != nil {
+		return n
+	}
+	for q := range e.d.transparent {
+		i := strings.LastIndex(q, ".")
+		if i < 0 || q[i+1:] != name {
+			continue
+		}
+		for _, p := range e.pkgs {
+			if p.Types != nil && p.Types.Name() == q[:i] {
+				if n := look(p.Types); n != nil {
+					return n
+				}
+			}
+		}
+	}
+	var hits []*types.Named
+	for _, p := range e.pkgs {
+		if p.Types != nil && e.d.inModule(p.Types) {
+			if n := look(p.Types); n != nil {
+				hits = append(hits, n)
+			}
+		}
+	}
+	if len(hits) == 1 {
+		return hits[0]
+	}
+	return nil
+}
+
+// splitTop splits at commas that are not nested in brackets.
+func splitTop(s string) []string {
+	var out []string
+	depth, start := 0, 0
+	for i, ch := range s {
+		switch ch {
+		case '(', '[', '{':
+			depth++
+		case ')', ']', '}':
+			depth--
+		case ',':
+			if depth == 0 {
+				out = append(out, s[start:i])
+				start = i + 1
+			}
+		}
+	}
+	return append(out, s[start:])
+}
+
+// allmapsType evaluates the expression inside allmaps(...) to find the map type it designates.
+func (c *FnCtx) allmapsType(m string, sc *SpecCtx, pre *State) *types.Map {
+	inner := strings.TrimSuffix(strings.TrimPrefix(m, "allmaps("), ")")
+	e, err := parseSpec(inner)
+	if err != nil {
+		panic(toolErr("modifies %q: %v", m, err))
+	}
+	psc := *sc
+	psc.st = pre
+	v := psc.eval(e)
+	if v.T != nil {
+		if mt, ok := v.T.Underlying().(*types.Map); ok {
+			return mt
+		}
+	}
+	panic(toolErr("modifies %q: not a map-typed expression", m))
+}
